@@ -63,7 +63,7 @@ def evaluate(prop, run_, results, stats):
                 run_.inconc("program %d crashed (%s); memory errors along the << chain are C05's verdict" % (seed, key))
             continue
         prog = loggen.gen_program(seed)
-        types, cfgs, done = loggen.parse_log(out)
+        types, cfgs, done = loggen.parse_log(out, loggen.item_owner(prog))
         if not done:
             run_.inconc("program %d did not finish" % seed)
             continue
@@ -90,8 +90,8 @@ def evaluate(prop, run_, results, stats):
                 if stray and prop == "C05":
                     run_.violation("event-outside-any-statement", "logger %d thresholds %r: %r" % (k, thr_tuple, stray[:3]),
                                    dict(case, logger=k, thresholds=list(thr_tuple)))
-                for st in lg["stmts"]:
-                    lazy_want, rec_want = loggen.expected_events(lg, st, minsev, thr)
+                for st, parent, how in loggen.all_statements(lg):
+                    lazy_want, rec_want = loggen.expected_events(lg, st, minsev, thr, parent, how)
                     got = got_cfg.get(st["id"], [])
                     lazy_got = [l for l in got if l.startswith(("LAZY", "INS"))]
                     rec_got = [l for l in got if l.startswith(("FMT", "SINK"))]
@@ -99,8 +99,12 @@ def evaluate(prop, run_, results, stats):
                     enabled = bool(rec_want)
                     stats["enabled" if enabled else ("disabled-compile-time" if st["sev"] < minsev else "disabled-runtime")] += 1
                     c = dict(case, logger=k, filter=loggen.filter_show(lg["filter"]), thresholds=list(thr_tuple),
-                             statement=_show_stmt(st))
+                             statement=_show_stmt(st), overlaps=how)
                     why = "compile-time" if st["sev"] < minsev else "runtime-filter"
+                    if how == "lazylog" and not loggen.enabled(lg, parent, minsev, thr):
+                        why = "enclosing-statement-disabled"
+                    if how:
+                        stats["overlapping-statement-executions"] += 1
                     if prop == "C05":
                         stats["formatter-calls"] += sum(1 for l in rec_got if l.startswith("FMT"))
                         stats["sink-calls"] += sum(1 for l in rec_got if l.startswith("SINK"))
